@@ -33,6 +33,7 @@ def run_target(job):
         mod = importlib.import_module(module)
         W = mod.W
         rel, qual = mod.TARGETS[key][:2]
+        res['assumed_contracts'] = sorted(set(W.contracts) - set(mod.TARGETS) - set(getattr(mod, 'VERIFIED_ELSEWHERE', ())))
         res['file'], res['qualname'] = rel, qual
         fns = load(os.path.join(repo, rel))
         if qual not in fns:
